@@ -210,3 +210,137 @@ def replay(case):
     with np.errstate(all="ignore"):
         py = run(inp)
     return dict(python=str(py), lean=run_driver([f"py.{spec['name']} " + " ".join(toks)], exe="drv_py")[0])
+
+
+# ------------------------------------------------------------------------------------------------ array functions (tools/py2lean_vec.py)
+def _gen_vec(rng, n, positive=True):
+    out = []
+    for _ in range(n):
+        u = rng.random()
+        if u < 0.2:
+            out.append(float("nan"))
+        elif u < 0.3:
+            out.append(float(rng.choice([1.0, 2.0, 0.5])))
+        else:
+            x = float(10.0 ** rng.uniform(-2, 2))
+            out.append(x if positive or rng.random() < 0.6 else -x)
+    return out
+
+
+def _vec_case(rng, spec, tables):
+    strings = sorted({k for tb in tables.values() for k in tb} | {"Normal", "LOGNORMAL", "Log-Normal", "weibull", ""})
+    n = int(rng.choice([0, 1, 2, 3, 5, 8, 13]))
+    inp = {}
+    for p, t in spec["params"]:
+        if t == "str" and p == "denominator":
+            inp[p] = str(rng.choice(["nist", "cheng", "cheng", "nist", "other"]))
+        elif t == "str":
+            inp[p] = str(rng.choice(strings))
+        elif t == "v":
+            inp[p] = _gen_vec(rng, n)
+        elif t == "ov":
+            u = rng.random()
+            if u < 0.4:
+                inp[p] = None
+            elif u < 0.7:       # Cheng-style weights: positive, summing to one
+                w = rng.random(n) + 0.05
+                inp[p] = [float(x) for x in (w / w.sum() if n else w)]
+            elif u < 0.8:
+                inp[p] = [0.0] * n
+            else:
+                inp[p] = [float(x) for x in rng.uniform(0.1, 3.0, n)]
+    return inp
+
+
+def _vec_line(spec, tables, inp):
+    toks = []
+    for t_ in spec["tables"]:
+        toks += [str(len(tables[t_]))] + [x for kv in sorted(tables[t_].items()) for x in kv]
+    for p, t in spec["params"]:
+        v = inp[p]
+        if t == "str":
+            toks.append(v if v != "" else "\"\"")
+        elif t == "v":
+            toks += [str(len(v))] + ["none" if x != x else hexf(x) for x in v]
+        elif t == "ov":
+            toks += ["None"] if v is None else [str(len(v))] + ["none" if x != x else hexf(x) for x in v]
+    return f"pyvec.{spec['name']} " + " ".join(toks)
+
+
+def _vec_python(module, spec, inp):
+    kwargs = {}
+    for p, t in spec["params"]:
+        v = inp[p]
+        kwargs[p] = (None if v is None else np.array(v, dtype=float)) if t in ("v", "ov") else v
+    try:
+        with np.errstate(all="ignore"):
+            import warnings
+            with warnings.catch_warnings():
+                warnings.simplefilter("ignore")
+                r = getattr(module, spec["func"])(**kwargs)
+    except Exception as e:
+        return ("raise", type(e).__name__)
+    r = float(r)
+    return ("val", r) if math.isfinite(r) else ("nan", r)
+
+
+def _vec_agree(py, line, scale):
+    t = line.split()
+    if not t or t[0] not in ("raise", "nan", "val"):
+        return False
+    kind, val = t[0], (unhex(t[1]) if t[0] == "val" else None)
+    if kind == "val" and not math.isfinite(val):
+        kind = "nan"
+    if py[0] != kind:
+        return False
+    return kind != "val" or abs(py[1] - val) <= 1e-9 * max(abs(py[1]), abs(val)) + 1e-12 * scale
+
+
+def validate_vec(ctx, rng, names=None):
+    """the array functions translated by tools/py2lean_vec.py: the REAL function (CPython) and the generated definition (Float) on the same arrays"""
+    import py2lean_vec
+    note = ctx.supporting.setdefault("translator_validation", {})
+    rc, log = lake(["build", "drv_py"])
+    if rc != 0:
+        note["status_vec"] = "unavailable: drv_py does not build"
+        return
+    st, _ = py2lean_vec.emit(REPO)
+    n_inputs = ctx.budget(300, 3000)
+    for spec in py2lean_vec.TARGETS:
+        name = spec["name"]
+        if names is not None and name not in names:
+            continue
+        if st.get("pyvec:" + name) != "translated":
+            continue
+        module = importlib.import_module(spec["file"][:-3].replace("/", "."))
+        tables = {t_: dict(getattr(module, t_)) for t_ in spec["tables"]}
+        cases = [_vec_case(rng, spec, tables) for _ in range(n_inputs)]
+        cases = [c for c in cases if all(v != "" for v in c.values() if isinstance(v, str))]      # the empty string cannot cross the line protocol
+        outs = run_driver([_vec_line(spec, tables, c) for c in cases], exe="drv_py")
+        agree = 0
+        kinds = {}
+        for inp, line in zip(cases, outs):
+            py = _vec_python(module, spec, inp)
+            scale = max([1.0] + [abs(x) for v in inp.values() if isinstance(v, list) for x in v if x == x])
+            if _vec_agree(py, line, scale):
+                agree += 1
+                kinds[py[0]] = kinds.get(py[0], 0) + 1
+            else:
+                ctx.violation("translator-validation", dict(case=dict(target="pyvec:" + name, inputs=inp), python=str(py)[:300], lean=line[:300]),
+                              seam="tools/py2lean_vec.py " + name)
+                note["pyvec:" + name] = "DISAGREE"
+                break
+        else:
+            note["pyvec:" + name] = f"agree on {agree} inputs {kinds}"
+        ctx.traces += agree
+
+
+def replay_vec(case):
+    import py2lean_vec
+    regenerate_tables()
+    lake(["build", "drv_py"])
+    spec = next(s for s in py2lean_vec.TARGETS if "pyvec:" + s["name"] == case["target"])
+    module = importlib.import_module(spec["file"][:-3].replace("/", "."))
+    tables = {t_: dict(getattr(module, t_)) for t_ in spec["tables"]}
+    inp = {k: ([float("nan") if (x is None or x != x) else x for x in v] if isinstance(v, list) else v) for k, v in case["inputs"].items()}
+    return dict(python=str(_vec_python(module, spec, inp)), lean=run_driver([_vec_line(spec, tables, inp)], exe="drv_py")[0])
